@@ -276,6 +276,7 @@ pub fn dispatch(cmd: &str, name: &str, arg: &str) -> Option<String> {
     if name.starts_with("feedback.") { return dispatch_feedback(cmd, name, arg); }
     if name.starts_with("reshape.") { return dispatch_reshape(cmd, name, arg); }
     if name == "tensor.elementwise" || name == "activation.elementwise" { return dispatch_elementwise(cmd, name, arg); }
+    if name == "random.shapes" { return dispatch_random(cmd, name, arg); }
     if name == "tensor.linear" || name == "dense.linear.forward" || name == "dense.linear.backward" { return dispatch_linear(cmd, name, arg); }
     if !["conv", "deconv", "pool"].iter().any(|p| name.starts_with(p)) { return None; }
     std::panic::set_hook(Box::new(|_| {}));
@@ -1445,5 +1446,49 @@ pub fn dispatch_linear(cmd: &str, name: &str, arg: &str) -> Option<String> {
         tried += 1;
         if let Err(e) = one(r, c, b) { return Some(format!("{{\"failed\":true,\"tried\":{},\"input\":{},\"detail\":{:?}}}", tried, fmt(r, c, b), e)); }
     }}}
+    Some(format!("{{\"failed\":false,\"tried\":{}}}", tried))
+}
+
+// ------------------------------------------------------------------------------------------------ random tensors and shuffling (C18)
+pub fn random_one(dims: &[usize], which: usize) -> Result<(), String> {
+    let bounds = [(-1.0f32, 1.0f32), (0.0, 0.0), (2.5, 3.0), (-1e30, 1e30)];
+    let (lo, hi) = bounds[which % bounds.len()];
+    let shape = match dims.len() { 1 => Shape::Single(dims[0]), 2 => Shape::Double(dims[0], dims[1]), 3 => Shape::Triple(dims[0], dims[1], dims[2]), _ => Shape::Quadruple(dims[0], dims[1], dims[2], dims[3]) };
+    let t = Tensor::random(shape.clone(), lo, hi);
+    if t.shape != shape { return Err("Tensor::random: the recorded shape is not the requested one".into()); }
+    let g = match cells(&t, dims) { Some(g) => g, None => return Err(format!("Tensor::random: the data do not have the requested extents {:?}", dims)) };
+    if let Some(k) = (0..g.len()).find(|&k| !(g[k] >= lo && g[k] <= hi)) { return Err(format!("Tensor::random: entry {} (row-major) is {} outside [{}, {}]", k, g[k], lo, hi)); }
+    // shuffle: a permutation, for a length derived from the extents and a seed derived from the bounds index
+    let n: usize = dims.iter().product::<usize>() + dims.len() - 1;
+    let mut gen = crate::random::Generator::create(which as u64 * 7919 + n as u64);
+    let mut v: Vec<usize> = (0..n).map(|i| i / 2).collect();       // with repeated elements: multiset, not set
+    let before = { let mut b = v.clone(); b.sort(); b };
+    gen.shuffle(&mut v);
+    let after = { let mut a = v.clone(); a.sort(); a };
+    if before != after { return Err(format!("shuffle: length {} - the result is not a permutation of the input", n)); }
+    Ok(())
+}
+pub fn dispatch_random(cmd: &str, _name: &str, arg: &str) -> Option<String> {
+    if std::env::var("VERIF_SHOW_PANIC").is_err() { std::panic::set_hook(Box::new(|_| {})); }
+    let fmt = |w: usize, d: &[usize]| format!("{{\"bounds\":{},\"extents\":{:?}}}", w, d);
+    let one = |w: usize, d: Vec<usize>| -> Result<(), String> {
+        match std::panic::catch_unwind(move || random_one(&d, w)) { Ok(r) => r, Err(_) => Err("Tensor::random / shuffle panicked".into()) }
+    };
+    if cmd == "run" {
+        let v: Vec<usize> = arg.split(|c: char| !c.is_ascii_digit()).filter(|x| !x.is_empty()).filter_map(|x| x.parse().ok()).collect();
+        if v.len() < 2 || v.len() > 5 { return None; }
+        let d = v[1..].to_vec();
+        return Some(match one(v[0], d.clone()) { Ok(()) => format!("{{\"failed\":false,\"input\":{}}}", fmt(v[0], &d)), Err(e) => format!("{{\"failed\":true,\"input\":{},\"detail\":{:?}}}", fmt(v[0], &d), e) });
+    }
+    let m = if big() { 4usize } else { 3usize };
+    let mut grid: Vec<Vec<usize>> = (1..=6usize).map(|a| vec![a]).collect();
+    for a in 1..=m { for b in 1..=m { grid.push(vec![a, b]); } }
+    for a in 1..=m { for b in 1..=m { for c in 1..=m { grid.push(vec![a, b, c]); } } }
+    for a in 1..=m.min(3) { for b in 1..=m.min(3) { for c in 1..=m.min(3) { for d in 1..=m.min(3) { grid.push(vec![a, b, c, d]); } } } }
+    let mut tried = 0usize;
+    for w in 0..4usize { for d in &grid {
+        tried += 1;
+        if let Err(e) = one(w, d.clone()) { return Some(format!("{{\"failed\":true,\"tried\":{},\"input\":{},\"detail\":{:?}}}", tried, fmt(w, d), e)); }
+    }}
     Some(format!("{{\"failed\":false,\"tried\":{}}}", tried))
 }
